@@ -1,6 +1,6 @@
 (* Check/BlockPointsLemmas.v — lemmas over the table REGENERATED from /repo/block/*.go on every run
    (coq/gen/BlockPoints.v).  Exact-list form (DESIGN 2.8): the operations that are not cancellable on the
-   current tree (after the repairs ca974a2, c53a06a, 03584e7) are listed by function, kind and channel text; a new one, a removed one or a changed one
+   current tree (after the repairs ca974a2, 0d6bd4f, 4176904) are listed by function, kind and channel text; a new one, a removed one or a changed one
    breaks the equality.  Domain of these lemmas: the finite regenerated table. *)
 From Coq Require Import String List Bool.
 From Verif Require Import Model.StopProto Proofs.StopProtoProofs gen.BlockPoints.
